@@ -14,6 +14,8 @@ import Rsa.Lemmas.C03
 import Rsa.Lemmas.C03Kendall
 import Rsa.Lemmas.C03Whiten
 import Rsa.Lemmas.C03Rho
+import Rsa.Lemmas.C03Cka
+import Rsa.Lemmas.C03PosDef
 import Mathlib.Tactic.IntervalCases
 import Mathlib.Algebra.BigOperators.Field
 
@@ -731,5 +733,99 @@ theorem bures_metric_self_partial (eigh : List (List ℝ) → List ℝ × List (
 def bures_full : Prop :=
   ∀ (eigh : List (List ℝ) → List ℝ × List (List ℝ)) (n : ℕ) (x y : List ℝ),
     buresSim eigh (kernelRows n x) (kernelRows n y) = buresSim eigh (kernelRows n y) (kernelRows n x)
+
+/-! ## 9. the linear-CKA fast path (`sigma_k = None`) is the whitened cosine (round 2) -/
+
+/-- **The code path that actually runs for `sigma_k=None`** (`_cov_weighting` + `_cosine`:
+    centred kernel `−½HDH` stretched out, off-diagonals·√2, cosine) **equals the definition**
+    `r₁ᵀV⁻¹r₂/√(r₁ᵀV⁻¹r₁·r₂ᵀV⁻¹r₂)` with `V = getV n none`, for every `n ≥ 1`, all RDM vectors
+    of the right length and *any* solutions `V s₁ = r₁`, `V s₂ = r₂`: the three inner
+    products coincide, hence the values; where a quadratic form is not positive the
+    definition is undefined (`none`) and the fast path answers its guard value 0. -/
+theorem whitened_fast_eq_V (n : ℕ) (hn : 0 < n) (r1 r2 s1 s2 : List ℝ)
+    (h1 : r1.length = triLen n) (h2 : r2.length = triLen n)
+    (e1 : matVec (getV n (SigmaK.none : SigmaK ℝ)) s1 = r1)
+    (e2 : matVec (getV n (SigmaK.none : SigmaK ℝ)) s2 = r2) :
+    dot r1 s2 = dot (covWeighting n r1) (covWeighting n r2) ∧
+    dot r1 s1 = dot (covWeighting n r1) (covWeighting n r1) ∧
+    dot r2 s2 = dot (covWeighting n r2) (covWeighting n r2) ∧
+    (wcosFrom r1 r2 s1 s2 = some (whitenedCosFast n r1 r2) ∨
+      (wcosFrom r1 r2 s1 s2 = none ∧ whitenedCosFast n r1 r2 = 0)) := by
+  have a := dot_solution_eq_fast n hn r1 r2 s2 h1 h2 e2
+  have b := dot_solution_eq_fast n hn r1 r1 s1 h1 h1 e1
+  have c := dot_solution_eq_fast n hn r2 r2 s2 h2 h2 e2
+  refine ⟨a, b, c, ?_⟩
+  rw [wcosFrom_eq]
+  unfold whitenedCosFast
+  rw [cosine_eq, a, b, c]
+  by_cases h : 0 < dot (covWeighting n r1) (covWeighting n r1) ∧
+      0 < dot (covWeighting n r2) (covWeighting n r2)
+  · left
+    rw [if_pos h, if_pos ⟨Real.sqrt_pos.mpr h.1, Real.sqrt_pos.mpr h.2⟩]
+  · right
+    rw [if_neg h, if_neg (fun h' => h ⟨Real.sqrt_pos.mp h'.1, Real.sqrt_pos.mp h'.2⟩)]
+    exact ⟨rfl, rfl⟩
+
+/-- the same for the whitened correlation (`compare_correlation_cov_weighted` removes the
+    mean of each vector and then takes the same path) -/
+theorem whitened_corr_fast_eq_V (n : ℕ) (hn : 0 < n) (r1 r2 s1 s2 : List ℝ)
+    (h1 : r1.length = triLen n) (h2 : r2.length = triLen n)
+    (e1 : matVec (getV n (SigmaK.none : SigmaK ℝ)) s1 = center r1)
+    (e2 : matVec (getV n (SigmaK.none : SigmaK ℝ)) s2 = center r2) :
+    wcosFrom (center r1) (center r2) s1 s2 = some (whitenedCosFast n (center r1) (center r2)) ∨
+      (wcosFrom (center r1) (center r2) s1 s2 = none ∧
+        whitenedCosFast n (center r1) (center r2) = 0) :=
+  (whitened_fast_eq_V n hn (center r1) (center r2) s1 s2 (by simpa [center] using h1)
+    (by simpa [center] using h2) e1 e2).2.2.2
+
+-- non-vacuity: n = 3, r = (1,2,3) is solved by s = (0, 1/3, 2/3) under V = [[4,1,1],[1,4,1],[1,1,4]]
+example : matVec (getV 3 (SigmaK.none : SigmaK ℚ)) [0, 1/3, 2/3] = [1, 2, 3] := by decide +kernel
+
+/-! ## 10. leaf-dependent forms and the argument checks (round 2) -/
+
+/-- rho-a with the constant regenerated from `compare_rho_a`'s text is the modelled rho-a
+    (so every rho-a theorem above speaks about the current source text) -/
+theorem rhoA_coded_eq (x y : List ℝ) :
+    rhoACoded x y = rhoA x y ∧
+    rhoACoded x y = 12 / ((x.length : ℝ) ^ 3 - x.length) *
+      dot (center (avgRank x)) (center (avgRank y)) :=
+  ⟨rhoACoded_eq x y, (rhoACoded_eq x y).trans (rhoA_def x y)⟩
+
+/-- the fast path with the grand mean exactly as `_cov_weighting` computes it
+    (`np.sum(vector_w * 2) / (n_cond * n_cond)`, regenerated leaf) is the fast path with the
+    textbook double centring — and therefore (`whitened_fast_eq_V`) the whitened cosine -/
+theorem fast_coded_eq (n : ℕ) (r1 r2 : List ℝ) :
+    whitenedCosFastCoded n r1 r2 = whitenedCosFast n r1 r2 ∧
+    covWeightingCoded n r1 = covWeighting n r1 :=
+  ⟨whitenedCosFastCoded_eq n r1 r2, covWeightingCoded_eq n r1⟩
+
+/-- `compare` rejects exactly unknown method names and stacks of different vector length -/
+theorem accepts_iff (method : String) (lx ly : ℕ) :
+    accepts method lx ly = true ↔ method ∈ methodNames ∧ lx = ly := by
+  simp [accepts]
+
+example : accepts "tau-a" 6 6 = true ∧ accepts "tau-c" 6 6 = false ∧ accepts "corr" 6 3 = false := by
+  decide
+
+/-! ## 11. `V` is positive definite when `sigma_k` is omitted (round 2) -/
+
+/-- the `SymPosDef` hypothesis of section 6 is a theorem for the default `sigma_k = None`,
+    for every number of conditions -/
+theorem getV_none_posDef (n : ℕ) : SymPosDef (getV n (SigmaK.none : SigmaK ℝ)) (triLen n) :=
+  symPosDef_getV_none n
+
+/-- hence, without any hypothesis on `V`: the default whitened cosine / correlation is
+    symmetric, within [-1, 1] and 1 for a non-zero RDM with itself, whatever solver produced
+    the solutions -/
+theorem whitened_none_props (n : ℕ) (r1 r2 s1 s2 : List ℝ)
+    (l1 : s1.length = triLen n) (l2 : s2.length = triLen n)
+    (e1 : matVec (getV n (SigmaK.none : SigmaK ℝ)) s1 = r1)
+    (e2 : matVec (getV n (SigmaK.none : SigmaK ℝ)) s2 = r2) :
+    wcosFrom r1 r2 s1 s2 = wcosFrom r2 r1 s2 s1 ∧
+    (∀ v, wcosFrom r1 r2 s1 s2 = some v → |v| ≤ 1) ∧
+    ((∃ c ∈ r1, c ≠ 0) → wcosFrom r1 r1 s1 s1 = some 1) :=
+  ⟨whitened_symm (getV_none_posDef n) r1 r2 s1 s2 l1 l2 e1 e2,
+   fun v hv => whitened_abs_le_one (getV_none_posDef n) r1 r2 s1 s2 l1 l2 e1 e2 v hv,
+   fun h => whitened_self (getV_none_posDef n) r1 s1 l1 e1 h⟩
 
 end Rsa.Props.C03
